@@ -54,7 +54,7 @@ func LoadKnown(path string) (*KnownFile, error) {
 func (kf *KnownFile) match(prop string, o *Obligation) *KnownFinding {
 	for i := range kf.Findings {
 		f := &kf.Findings[i]
-		if f.Status == "known" && f.Obligation == o.Name && f.Path == o.Path && (f.Property == prop || f.Property == labelProp(o.Label)) {
+		if f.Status == "known" && f.Obligation == o.Name && f.Path == o.Path && (f.Property == prop || labelHasProp(o.Label, f.Property)) {
 			return f
 		}
 	}
@@ -67,7 +67,7 @@ func counts(prop string, o *Obligation) bool {
 		return false
 	}
 	if o.Label != "" {
-		return labelProp(o.Label) == prop
+		return labelHasProp(o.Label, prop)
 	}
 	if prop == "C15" {
 		return safetyKinds[o.Kind] || supportingKinds[o.Kind]
